@@ -108,11 +108,7 @@ func snapEq(a, b *snap) *Term {
 		if len(a.bytes) != len(b.bytes) {
 			return tFalse
 		}
-		var cs []*Term
-		for i := range a.bytes {
-			cs = append(cs, Eq(termOf(a.bytes[i]), termOf(b.bytes[i])))
-		}
-		return And(cs...)
+		return bytesEqTerm(a.bytes, b.bytes) // elements may be opaque handles (e.g. prefix ++ encoded struct)
 	case 'H':
 		if a.h == b.h {
 			return tTrue
